@@ -19,7 +19,10 @@ RULE = ('corpus first (shapes of past seeded changes: stranger / secure-demoted 
         '(str.lower + IrcDict key); direct oracle (its own reading of the capability syntax -- channel name: chantypes, length <= channellen inclusive, no comma / BEL / '
         'whitespace -- never the string algebra of the implementation, which it checks word by word instead) = '
         'totality, case variants, anti-symmetry on the flag triples of C03_anti_opposite_flags, and an independent decision-list spec '
-        'for EVERY flag triple evaluated on the real objects.  non-trivial = distinct (db, cap, flags)')
+        'for EVERY flag triple evaluated on the real objects, asking twice on the same objects gives the same answer; databases '
+        'reached by histories of add / remove edits (failing edits included) on the account, channel and registry sets; separate streams: '
+        'histories on one set vs the model (final set + outcome of every edit + invariant), ircdb.checkCapabilities (all / any of the '
+        'single answers, through the default users= / channels= arguments).  non-trivial = distinct (db, cap, flags)')
 TRUSTED = ['user lookup (users.getUser, checkHostmask) enters this model as an input taken from the real objects; it is modelled in C04',
            "str.lower() on channel names is modelled for ASCII only (generators use ASCII-cased channel names)"]
 ASSUMPTIONS = ['world.testing off (the testing shortcut of checkCapability is not modelled)']
@@ -30,12 +33,25 @@ LEVEL_TEXT = ('Coq theorems over an executable Gallina model of the capability s
               'ignoreDefaultAllow, and with it for unrecognised senders and plain capabilities; refuted by a witness for the rest), owner '
               'rule, case-insensitivity, refinement of a readable decision-list spec for all three ignore* flags and both members of a '
               '(capability, anti-capability) pair; the answer depends neither on the spelling of the asked channel name nor on the one it '
-              'was stored under (channel table = IrcDict over str.lower, refuted for a table keyed by str.lower alone); the length bound of a channel name is '
+              'was stored under (channel table = IrcDict over str.lower, refuted for a table keyed by str.lower alone); the set invariant '
+              'db_ok holds after EVERY history of add / remove edits; checkCapabilities = all / any; the length bound of a channel name is '
               'inclusive and names of exactly channellen characters take the channel branch of the decision list.  Tie: regenerated '
               'fold table / whitespace set / chantypes / fail-closed pin of ChannelsDictionary.channels, getChannel, setChannel, IrcDict.key / '
               'defaultOff + differential run of the extracted model against the real function on sampled databases.')
-LEVEL_NOTE = ('Trusted: Coq kernel, gen_tables.py, extraction + driver, harness; user lookup is an input (C04); conf registry plumbing is '
-              'exercised, not modelled; non-ASCII str.lower() outside the model.')
+LEVEL_NOTE = ('Trusted: Coq kernel, gen_tables.py, extraction + driver, harness.  Modelled, not verified / not modelled: (1) who the first '
+              'argument is: users.getUser / checkHostmask enter as inputs taken from the real objects (C04 models them); only hostmasks '
+              'are generated -- an account NAME as first argument is answered as that account (unknown if secure), a server prefix '
+              'without "!" is looked up as a name, an int id raises TypeError for a secure account (C03.F48, repaired at the one caller, '
+              'caller inventory pinned); (2) str.lower() of non-ASCII channel names is outside the model (its lower is ASCII): finding '
+              'C03.F47, such cases get no model correspondence, only the direct oracle; non-ASCII letters in capability names are not '
+              'folded by the sets at all (only rfc1459), so "case" means rfc1459 case throughout; (3) the conf registry plumbing '
+              '(DefaultCapabilities.setValue, registry file) and the users.conf / channels.conf readers are exercised or left to '
+              'C01/C02/C16, not modelled here: sets enter through add/remove histories and are read back from the real objects; '
+              '(4) the world.testing shortcut of checkCapability is not modelled (checks run with it off); (5) checkCapabilities only '
+              'with the default flags (it has no others); (6) plugins that call IrcUser._checkCapability / IrcChannel._checkCapability '
+              'directly (checkIgnored "trusted", Anonymous, User) bypass the precedence by design and are not covered; (7) one account '
+              '(two for the duplicate match), fresh UsersDictionary / ChannelsDictionary per case (the global ones only through the '
+              'default arguments in the checkCapabilities stream), no concurrent edits.')
 TECHNIQUE = 'Coq proof (case analysis + set invariant by induction over add) + regenerated tables + extracted-model differential correspondence'
 
 SPELLINGS = {'#dev[ops]': ['#dev[ops]', '#DEV{OPS}', '#Dev[ops}', '#dev{ops}', '#DEV[OPS]'],
@@ -121,7 +137,25 @@ def boundary_names(L):
 BND = boundary_names(50)
 
 
-CLASSES = {'nested_channel_capability': lambda inp: 'cap' in inp and nested(inp['cap'])}
+def nonascii_channel_case(inp):
+    """class of finding F47: the asked channel and a stored channel are different names for IRC but equal under str.lower()"""
+    if 'db' not in inp or 'cap' not in inp:
+        return False
+    _, _, ircutils = _mods()
+    p = o_chan_split(inp['cap'])
+    return p is not None and any(n.lower() == p[0].lower() and ircutils.toLower(n) != ircutils.toLower(p[0])
+                                 for n in inp['db']['chans'])
+
+
+def _nested_input(inp):
+    if 'cap' in inp:
+        return nested(inp['cap'])
+    if 'history' in inp:
+        return any(a and nested(c) for a, c in inp['history']['edits'])
+    return False
+
+
+CLASSES = {'nested_channel_capability': _nested_input, 'nonascii_channel_case': nonascii_channel_case}
 
 
 UNKNOWN_KINDS = ('none', 'nomatch', 'secure-authonly', 'dup')
@@ -149,6 +183,36 @@ def gen_db(rng, kind=None):
         if rng.random() < 0.45:
             for name in rng.sample(sp, 2 if rng.random() < 0.15 else 1):
                 chans[name] = {'caps': [c for c in CHAN_POOL if rng.random() < 0.35], 'default': rng.random() < 0.4}
+    g = _gen_db_tail(rng, kind, caps, chans)
+    # "after any history of edits": add / remove edits (removes mostly of something that is there, in another spelling; some
+    # failing: KeyError of remove, the '-owner' / not-a-capability asserts of add) on the account's, a channel's and the registry sets
+    if rng.random() < 0.35:
+        if g['user'] is not None:
+            g['user']['edits'] = gen_edits(rng, g['user']['caps'], USER_POOL + ['-owner', 'a b'])
+        for name in g['chans']:
+            if rng.random() < 0.5:
+                g['chans'][name]['edits'] = gen_edits(rng, g['chans'][name]['caps'] + ['-op', '-voice'], CHAN_POOL + ['op', 'voice', ''])
+        if rng.random() < 0.5:
+            g['default_edits'] = gen_edits(rng, g['defaults'], DEF_POOL[1:])
+        if rng.random() < 0.3:
+            g['registered_edits'] = gen_edits(rng, g['registered'], DEF_POOL[2:])
+    return g
+
+
+def gen_edits(rng, present, pool):
+    out = []
+    for _ in range(rng.randint(1, 5)):
+        if rng.random() < 0.5:
+            c = rng.choice(present) if present and rng.random() < 0.75 else rng.choice(pool)
+            r = rng.random()
+            c = c.swapcase() if r < 0.3 else (c.translate(str.maketrans('[]{}', '{}[]')) if r < 0.5 else c)
+            out.append([False, c])
+        else:
+            out.append([True, rng.choice(pool)])
+    return out
+
+
+def _gen_db_tail(rng, kind, caps, chans):
     return {'user': None if kind == 'none' else {'caps': caps, 'ignore': rng.random() < 0.15, 'kind': kind},
             'chans': chans,
             'defaults': [c for c in DEF_POOL if rng.random() < 0.3],
@@ -165,6 +229,21 @@ def gen_flags(rng):
     return [rng.random() < 0.5, rng.random() < 0.5, rng.random() < 0.5]
 
 
+def apply_edits(add, remove, edits):
+    """a history of add / remove edits through the real methods; returns the outcome of every edit (0 = ok, else the wire code
+    of the exception: KeyError 3, AssertionError 5).  A failing edit must leave the set unchanged."""
+    out = []
+    for is_add, cap in edits:
+        try:
+            (add if is_add else remove)(cap)
+            out.append(0)
+        except KeyError:
+            out.append(3)
+        except AssertionError:
+            out.append(5)
+    return out
+
+
 def build(ircdb, conf, g):
     users = ircdb.UsersDictionary()
     channels = ircdb.ChannelsDictionary()
@@ -173,6 +252,7 @@ def build(ircdb, conf, g):
         u.name = 'alice'
         for c in g['user']['caps']:
             u.addCapability(c)
+        apply_edits(u.addCapability, u.removeCapability, g['user'].get('edits', []))
         u.ignore = g['user']['ignore']
         kind = g['user']['kind']
         if kind in ('match', 'secure-match'):
@@ -198,11 +278,16 @@ def build(ircdb, conf, g):
         ch = ircdb.IrcChannel()
         for cap in c['caps']:
             ch.addCapability(cap)
+        apply_edits(ch.addCapability, ch.removeCapability, c.get('edits', []))
         ch.defaultAllow = c['default']
         channels.setChannel(name, ch)
     with contextlib.redirect_stdout(io.StringIO()):
         conf.supybot.capabilities.setValue(list(g['defaults']))
     conf.supybot.capabilities.registeredUsers.setValue(list(g['registered']))
+    # the registry sets are edited in place by the defaultcapability commands: conf.supybot.capabilities().add / .remove
+    apply_edits(conf.supybot.capabilities().add, conf.supybot.capabilities().remove, g.get('default_edits', []))
+    apply_edits(conf.supybot.capabilities.registeredUsers().add, conf.supybot.capabilities.registeredUsers().remove,
+                g.get('registered_edits', []))
     conf.supybot.capabilities.default.setValue(g['flag'])
     return users, channels
 
@@ -291,7 +376,12 @@ def spec(ircdb, ircutils, g, snap, cap, fl=(False, False, False)):
             if owner or fold(ch + ',op') in caps:
                 return holds(True)
     if ch is not None:
-        c = dict((k, v) for k, v in chans).get(fold(ch.lower()), [['-op', '-halfop', '-voice', '-protected'], True])
+        # the channel the asked name denotes: the entry stored under a name that IS this name for IRC (rfc1459 folding); the
+        # real table additionally identifies names that differ in the case of non-ASCII letters (str.lower): finding F47
+        same = [n for n in g['chans'] if fold(n) == fold(ch)]
+        c = dict((k, v) for k, v in chans).get(fold(same[-1].lower()), None) if same else None
+        if c is None:
+            c = [['-op', '-halfop', '-voice', '-protected'], True]
         e = explicit(c[0], base_f, antibase_f)
         if e is not None:
             return holds(e)
@@ -339,6 +429,10 @@ def run_case(ctx, mods, g, cap, fl, mout, kind, asked_h=H_MATCH, mout3=None):
     if ir[0] != 'ok':
         ctx.fail(inp, 'checkCapability raised %s on a well-formed capability' % ir[1])
         return
+    # asking again on the same objects (caches warm, default channels created by the first lookup) gives the same answer
+    again = impl_check(ircdb, users, channels, asked_h, cap, fl)
+    if again != ir:
+        ctx.fail(inp, 'asked twice on the same database: first %r, then %r' % (ir, again))
     # case variants give the same answer
     for v in variants(cap):
         users, channels = build(ircdb, conf, g)
@@ -369,6 +463,7 @@ def chan_sets(ircdb, g):
         ch = ircdb.IrcChannel()
         for cap in c['caps']:
             ch.addCapability(cap)
+        apply_edits(ch.addCapability, ch.removeCapability, c.get('edits', []))
         ch.defaultAllow = c['default']
         out.append([name, [sorted(set.__iter__(ch.capabilities)), ch.defaultAllow]])
     return out
@@ -439,6 +534,17 @@ def corpus():
         for cc, dflt in ((['-foo'], True), (['foo'], False), ([], False)):
             for cap in (at + ',foo', at + ',-foo', at.upper() + ',bar', BND['below'] + ',foo', BND['above'] + ',foo'):
                 out.append((_db(kind, caps, chans={at: {'caps': cc, 'default': dflt}}, flag=True), cap, [False, False, False]))
+    # finding F47: '#\u00c9' and '#\u00e9' are different channels for IRC, one record for the channel table (str.lower)
+    for stored, asked in (('#\u00c9', '#\u00e9'), ('#\u00e9', '#\u00c9'), ('#\u00c9t\u00e9', '#\u00e9t\u00e9')):
+        for cap in (asked + ',foo', asked + ',-foo', stored + ',foo'):
+            out.append((_db('none', chans={stored: {'caps': ['-foo'], 'default': True}}), cap, [False, False, False]))
+    # histories of edits: remove in another spelling, remove of the inverse (KeyError, nothing changes), re-add
+    g = _db('match', ['foo', '#chan,op', 'x[y]'])
+    g['user']['edits'] = [[False, 'FOO'], [False, '-x{y}'], [False, 'X{Y}'], [True, '-owner'], [True, '-#chan,op'], [False, '#CHAN,OP']]
+    g['chans'] = {'#chan': {'caps': ['foo', '-bar'], 'default': False, 'edits': [[False, '-foo'], [False, 'Foo'], [False, '-OP'], [True, '']]}}
+    g['default_edits'] = [[True, 'baz'], [False, 'BAZ'], [False, 'baz'], [True, '-foo']]
+    for cap in ('foo', '-foo', 'x{y}', '#chan,foo', '#chan,bar', '#chan,op', '#chan,-op', 'baz'):
+        out.append((g, cap, [False, False, False]))
     # finding F21's witness shape stays in the stream
     out.append((_db('none', chans={'#chan': {'caps': ['#other,-foo'], 'default': True}}), '#chan,#other,foo', [False, False, False]))
     return out
@@ -475,10 +581,42 @@ def run(ctx):
         # the same cases, the channel table not read back from the container but rebuilt by the model's own setChannel
         outs3 = ctx.model([[3, [sn[:2] + [chan_sets(ircdb, g)] + sn[3:], cap, fl]] for sn, (g, cap, fl, _) in zip(snaps, cases)])
         for (g, cap, fl, kind), mo, mo3 in zip(cases, outs, outs3):
+            if any(ord(x) > 127 for n in list(g['chans']) + [cap.split(',')[0]] for x in n):
+                # str.lower() of non-ASCII letters is outside the model (its lower is ASCII): no correspondence claimed here
+                mo = mo3 = None
             special = any(ch in cap for sp in SPELLINGS.values() for ch in sp)
             bnd = any(cap.lower().startswith(BND[k].lower() + ',') or cap[1:].lower().startswith(BND[k][1:] + ',') for k in ('at', 'below', 'above'))
             run_case(ctx, mods, g, cap, fl, mo, kind + ('-hostile' if not wf_cap(cap) or cap in HOSTILE else '')
                      + ('-pairchan' if special else '') + ('-boundary' if bnd else ''), mout3=mo3)
+        # ircdb.checkCapabilities (requireAll / any), through the default users= / channels= arguments of checkCapability
+        ccases = []
+        for _ in range(ctx.n(600)):
+            g = gen_db(rng)
+            ccases.append((g, rng.sample(ask, rng.randint(0, 4)) + (rng.sample(HOSTILE, 1) if rng.random() < 0.1 else []),
+                           rng.random() < 0.5))
+        outs = ctx.model([[5, [snapshot_wire(mods, g, H_MATCH), caps, ra]] for g, caps, ra in ccases])
+        for (g, caps, ra), mo in zip(ccases, outs):
+            run_caps_case(ctx, mods, g, caps, ra, mo)
+        # histories of edits on one set: UserCapabilitySet / CapabilitySet / IrcChannel()'s initial set
+        hcases = []
+        for _ in range(ctx.n(500)):
+            user = rng.random() < 0.4
+            initial = 'empty' if user or rng.random() < 0.5 else 'channel'
+            pool = (USER_POOL + ['-owner', 'OWNER']) if user else (CHAN_POOL + DEF_POOL + ['op', '-OP', 'voice'])
+            edits, present = [], []
+            for _ in range(rng.randint(0, 10)):
+                if present and rng.random() < 0.4:
+                    c = rng.choice(present + pool)
+                    c = rng.choice([c, c.swapcase(), c.translate(str.maketrans('[]{}', '{}[]'))])
+                    edits.append([False, c])
+                else:
+                    c = rng.choice(pool + ['a b', '', 'X{Y}', '-Foo'])
+                    edits.append([True, c])
+                    present.append(c)
+            hcases.append({'user': user, 'initial': initial, 'edits': edits})
+        outs = ctx.model([[4, [h['user'], initial_set(ircdb, h['initial']), h['edits']]] for h in hcases])
+        for h, mo in zip(hcases, outs):
+            run_history_case(ctx, mods, h, mo)
         # the string algebra on its own
         words = ask + HOSTILE + USER_POOL + BND['user'] + [BND['at'], BND['above']] + [a + b for a in ['', '-', '#c,', '#c,-', '#C,'] for b in ['x', 'X y', '', '-', 'é', 'x,y', ' x']]
         outs = ctx.model([[1, w] for w in words])
@@ -524,6 +662,79 @@ def run(ctx):
         conf.supybot.capabilities.registeredUsers.setValue([])
 
 
+def initial_set(ircdb, initial):
+    return sorted(set.__iter__(ircdb.IrcChannel().capabilities)) if initial == 'channel' else []
+
+
+def run_history_case(ctx, mods, h, mout):
+    ircdb, conf, ircutils = mods
+    inp = {'history': h}
+    ctx.case('history', inp)
+    if h['initial'] == 'channel':
+        ch = ircdb.IrcChannel()
+        cs = ch.capabilities
+        add, remove = cs.add, cs.remove
+        # IrcChannel.addCapability / removeCapability put `assert isCapability` in front of the same set methods: same final set
+        ch2 = ircdb.IrcChannel()
+        apply_edits(ch2.addCapability, ch2.removeCapability, h['edits'])
+    elif h['user']:
+        u = ircdb.IrcUser()
+        cs, add, remove = u.capabilities, u.addCapability, u.removeCapability
+    else:
+        cs = ircdb.CapabilitySet()
+        add, remove = cs.add, cs.remove
+    before, outcomes = None, []
+    for e in h['edits']:
+        before = sorted(set.__iter__(cs))
+        o = apply_edits(add, remove, [e])[0]
+        outcomes.append(o)
+        if o != 0 and sorted(set.__iter__(cs)) != before:
+            ctx.fail(inp, 'failing edit %r changed the set: %r -> %r' % (e, before, sorted(set.__iter__(cs))))
+    impl = [sorted(set.__iter__(cs)), outcomes]
+    if h['initial'] == 'channel' and sorted(set.__iter__(ch2.capabilities)) != impl[0]:
+        ctx.fail(inp, 'IrcChannel.add/removeCapability end in %r, the set methods in %r' % (sorted(set.__iter__(ch2.capabilities)), impl[0]))
+    if mout is not None:
+        model = [sorted(wire.ls(mout[0])), [int(x) for x in mout[1]]]
+        if model != impl:
+            ctx.disagree(inp, model, impl, 'history of add/remove edits')
+    for c in impl[0]:       # the invariant db_ok of the theorems
+        if ircdb.invertCapability(c) in impl[0]:
+            ctx.fail(inp, 'after the history the set holds both %r and its inverse' % c)
+
+
+def run_caps_case(ctx, mods, g, caps, ra, mout, asked_h=H_MATCH):
+    ircdb, conf, ircutils = mods
+    inp = {'db': g, 'caps': caps, 'requireAll': ra, 'hostmask': asked_h}
+    ctx.case('checkCapabilities', inp)
+    users, channels = build(ircdb, conf, g)
+    saved = ircdb.checkCapability.__defaults__
+    try:
+        # checkCapabilities has no users= / channels=: it reaches the database through checkCapability's default arguments
+        ircdb.checkCapability.__defaults__ = (users, channels) + tuple(saved[2:])
+        try:
+            ir = ('ok', bool(ircdb.checkCapabilities(asked_h, caps, ra)))
+        except Exception as e:
+            ir = ('raise', type(e).__name__)
+    finally:
+        ircdb.checkCapability.__defaults__ = saved
+    if mout is not None:
+        mr = wire.r(mout, bool)
+        if mr != ir:
+            ctx.disagree(inp, mr, ir, 'checkCapabilities')
+    if not all(wf_cap(c) for c in caps):
+        return
+    if ir[0] != 'ok':
+        ctx.fail(inp, 'checkCapabilities raised %s on well-formed capabilities' % ir[1])
+        return
+    single = []
+    for c in caps:
+        users, channels = build(ircdb, conf, g)
+        single.append(impl_check(ircdb, users, channels, asked_h, c, [False, False, False]))
+    want = all(r == ('ok', True) for r in single) if ra else any(r == ('ok', True) for r in single)
+    if want != ir[1]:
+        ctx.fail(inp, 'checkCapabilities(requireAll=%r) = %r, the single answers are %r' % (ra, ir[1], single))
+
+
 def algebra_oracle(ircdb, w):
     """the capability syntax of the property text, evaluated on the implementation's string algebra"""
     got = (bool(ircdb.isCapability(w)), bool(ircdb.isChannelCapability(w)), bool(ircdb.isAntiCapability(w)))
@@ -544,16 +755,20 @@ def algebra_oracle(ircdb, w):
 def replay(ctx, inp):
     mods = _mods()
     sub = type(ctx)(ctx.pid, ctx.tier, ctx.seed, {'model_ok': False})
-    if 'db' in inp:
+    if 'db' in inp and 'cap' in inp:
         run_case(sub, mods, inp['db'], inp['cap'], inp['flags'], None, 'replay', inp.get('hostmask', H_MATCH))
     elif 'algebra' in inp:
         return algebra_oracle(mods[0], inp['algebra'])
+    elif 'history' in inp:
+        run_history_case(sub, mods, inp['history'], None)
+    elif 'caps' in inp:
+        run_caps_case(sub, mods, inp['db'], inp['caps'], inp['requireAll'], None, inp.get('hostmask', H_MATCH))
     return sub.failures[0]['detail'] if sub.failures else None
 
 
 def shrink(ctx, inp):
     """greedy: drop capabilities / channels / default entries / flags while the property still fails on the implementation"""
-    if 'db' not in inp:
+    if 'db' not in inp or 'cap' not in inp:
         return inp
     cur = copy.deepcopy(inp)
 
